@@ -179,6 +179,7 @@ type tblEvent struct {
 	Admits    bool   // event class can admit its sender (query / matched response / AddNode)
 	Responded bool   // event is a matched response (newcomer counts as "has just answered")
 	ReadOnly  bool
+	ViaAPI    bool // explicit add API: admission permitted, not demanded
 }
 
 // outbound: start Server.Ping / FindNode in a goroutine, wait for the datagram, return its tid.
@@ -353,7 +354,7 @@ func (y *tblSys) apply(letter string) (ev tblEvent, err error) {
 		synctest.Wait()
 		y.settle() // AddNode with a zero ID pings instead
 		if p.ID != (sim.ID{}) {
-			ev.Sender, ev.SenderID, ev.Admits = &p, p.ID, true
+			ev.Sender, ev.SenderID, ev.Admits, ev.ViaAPI = &p, p.ID, true, true
 		}
 	case "F": // questionable-node ping that goes unanswered / answered
 		p, e := getp(1)
@@ -637,7 +638,8 @@ func (y *tblSys) c06Transition(b tblSnap, ev tblEvent, a tblSnap) string {
 	eligible := false
 	if ev.Sender != nil && ev.Admits {
 		senderKey = ev.Sender.Addr.String() + "|" + fmt.Sprintf("%x", ev.SenderID)
-		eligible = !ev.ReadOnly && !y.blocked(ev.Sender.Addr.IP) &&
+		// the blocklist concerns datagrams; the explicit add API is not a datagram source
+		eligible = !ev.ReadOnly && (ev.ViaAPI || !y.blocked(ev.Sender.Addr.IP)) &&
 			ev.SenderID != sim.Root && ev.SenderID != (sim.ID{}) &&
 			(!y.cfg.Security || refSecure(ev.SenderID, ev.Sender.Addr.IP))
 	}
@@ -678,7 +680,7 @@ func (y *tblSys) c06Transition(b tblSnap, ev tblEvent, a tblSnap) string {
 			}
 		}
 	}
-	if eligible {
+	if eligible && !ev.ViaAPI {
 		_, was := b.ByKey[senderKey]
 		_, is := a.ByKey[senderKey]
 		bi := sim.CommonPrefixLen(sim.Root, ev.SenderID)
